@@ -20,6 +20,7 @@ import (
 	"github.com/anz-bank/sysl/pkg/syslwrapper"
 	"github.com/sirupsen/logrus"
 	"github.com/spf13/afero"
+	"google.golang.org/protobuf/proto"
 
 	"verifharness/common"
 )
@@ -547,4 +548,150 @@ func caseTerm(app *sysl.Application, out exportOut) (term string, skipped string
 		obs = "(Some " + doc3Term(doc, nt) + ")"
 	}
 	return fmt.Sprintf("(%s,\n %s)", appTerm(nt), obs), ""
+}
+
+// ---------------------------------------------------------------- Swagger 2 definitions: projection for Export/SwExport.v
+
+func s2Term(t *sysl.Type) string {
+	if t == nil || t.Type == nil {
+		return "S2Nil"
+	}
+	switch x := t.Type.(type) {
+	case *sysl.Type_Primitive_:
+		return "(S2Prim " + coqString(x.Primitive.String()) + ")"
+	case *sysl.Type_Enum_:
+		return "S2Enum"
+	case *sysl.Type_Tuple_:
+		return "S2Tuple"
+	case *sysl.Type_Relation_:
+		return "S2Rel"
+	case *sysl.Type_TypeRef:
+		ref := x.TypeRef.GetRef()
+		if ref.GetAppname() == nil {
+			if len(ref.GetPath()) == 0 {
+				return "S2Other" // the exporter indexes Path[0]: not generated
+			}
+			return "(S2Ref " + coqString(ref.GetPath()[0]) + ")"
+		}
+		return "(S2Ref " + coqString(syslutil.GetAppName(ref.GetAppname())) + ")"
+	}
+	return "S2Other"
+}
+
+func ft2Term(t *sysl.Type) string {
+	switch x := t.GetType().(type) {
+	case *sysl.Type_Set:
+		return "(F2Set " + s2Term(x.Set) + ")"
+	case *sysl.Type_Sequence:
+		return "(F2Seq " + s2Term(x.Sequence) + ")"
+	}
+	return "(F2Plain " + s2Term(t) + ")"
+}
+
+func asciiOnly(s string) bool {
+	for i := 0; i < len(s); i++ {
+		if s[i] < 0x20 || s[i] > 0x7e {
+			return false
+		}
+	}
+	return true
+}
+
+func fschTerm(v interface{}) string {
+	m := asMap(v)
+	ty := asStr(m["type"])
+	if l := asList(m["type"]); l != nil {
+		var ss []string
+		for _, x := range l {
+			ss = append(ss, asStr(x))
+		}
+		ty = strings.Join(ss, ",")
+	}
+	items := "None"
+	if it, ok := m["items"]; ok {
+		im := asMap(it)
+		items = fmt.Sprintf("(Some (%s,%s))", coqString(asStr(im["format"])), coqString(asStr(im["type"])))
+	}
+	return fmt.Sprintf("(F %s %s %s)", coqString(ty), coqString(asStr(m["format"])), items)
+}
+
+// typesOnlyExport2: the Swagger export of the application without its endpoints, i.e. populateTypes alone (an error
+// of the endpoint part must not be taken for an error of the type part)
+func typesOnlyExport2(app *sysl.Application) exportOut {
+	c := proto.Clone(app).(*sysl.Application)
+	c.Endpoints = nil
+	return runExport2(c, "json")
+}
+
+// swCaseTerm: the Gallina case for the Swagger definitions of one application
+func swCaseTerm(app *sysl.Application, out exportOut) (term string, skipped string) {
+	if out.Panic != "" {
+		return "", "swagger export panics"
+	}
+	names := map[string]bool{}
+	for n, t := range app.GetTypes() {
+		names[n] = true
+		for f := range t.GetTuple().GetAttrDefs() {
+			names[f] = true
+		}
+		for f := range t.GetRelation().GetAttrDefs() {
+			names[f] = true
+		}
+	}
+	var doc map[string]interface{}
+	if out.Err == "" {
+		if err := json.Unmarshal(out.Bytes, &doc); err != nil {
+			return "", "output is not JSON"
+		}
+		for n, d := range asMap(doc["definitions"]) {
+			names[n] = true
+			for f := range asMap(asMap(d)["properties"]) {
+				names[f] = true
+			}
+		}
+	}
+	for n := range names {
+		if !asciiOnly(n) {
+			return "", "non-ASCII name"
+		}
+	}
+	nt := newNameTable(names)
+	type ent struct {
+		id int
+		s  string
+	}
+	sortJoin := func(es []ent) string {
+		sort.Slice(es, func(i, j int) bool { return es[i].id < es[j].id })
+		var ss []string
+		for _, e := range es {
+			ss = append(ss, fmt.Sprintf("(%d,%s)", e.id, e.s))
+		}
+		return common.GList(ss)
+	}
+	idOf := func(s string) int { i, _ := strconv.Atoi(nt.id(s)); return i }
+	var types []ent
+	for n, t := range app.GetTypes() {
+		var ms []ent
+		members := t.GetTuple().GetAttrDefs()
+		if t.GetRelation() != nil {
+			members = t.GetRelation().GetAttrDefs()
+		}
+		for f, ft := range members {
+			ms = append(ms, ent{idOf(f), ft2Term(ft)})
+		}
+		types = append(types, ent{idOf(n), fmt.Sprintf("(T2 %s %s)", ft2Term(t), sortJoin(ms))})
+	}
+	obs := "None"
+	if out.Err == "" {
+		var defs []ent
+		for n, d := range asMap(doc["definitions"]) {
+			var ps []ent
+			for f, p := range asMap(asMap(d)["properties"]) {
+				ps = append(ps, ent{idOf(f), fschTerm(p)})
+			}
+			defs = append(defs, ent{idOf(n), fmt.Sprintf("(D %s %s)", fschTerm(d), sortJoin(ps))})
+		}
+		obs = "(Some " + sortJoin(defs) + ")"
+	}
+	return fmt.Sprintf("(%s,\n %s)", sortJoin(types), obs), ""
 }
